@@ -61,6 +61,9 @@ structure MState where
   mm : MemMap := {}          -- model memory (overrides of the initial contents)
   im : MemMap := {}          -- implementation memory, reconstructed from reported changes
   abs : List AbsMap := []
+  /-- index prefixes (1 to 3 indices from level 4 down) of parent entries from which a successful
+  `set_flags_pN_entry` call took `PRESENT` away: everything below is unreachable until a later call gives it back -/
+  disabled : List (List Nat) := []
   -- the last `mh_op` (for `mh_mmu`): implementation memory before it, its page / opcode / probes
   imPrev : MemMap := {}
   lastOpcode : Nat := 0
@@ -133,12 +136,17 @@ swapped-out page) occupies its slot but maps nothing: translation and the hardwa
 def absLookup (abs : List AbsMap) (va : Nat) : Option AbsMap :=
   (abs.find? (fun a => a.start ≤ va && va < a.start + a.size)).filter (fun a => a.flags &&& 1#64 != 0#64)
 
+/-- Is `va` below a parent entry that was switched off (see `MState.disabled`)? -/
+def underDisabled (disabled : List (List Nat)) (va : Nat) : Bool :=
+  let idx := [vaIdx4 va, vaIdx3 va, vaIdx2 va]
+  disabled.any (fun p => p == idx.take p.length)
+
 /-- flag domain on which leaf flags are compared: bits 0..11, 52..63 (+ bit 12 for huge leaves) -/
 def flagDom (size : Nat) : Word := if size == 4096 then 0xfff0000000000fff#64 else 0xfff0000000001fff#64
 
 /-- C01: the hardware walk of the implementation's memory equals what the history dictates. -/
-def walkMatchesAbs (m : PMem) (p4 : Word) (abs : List AbsMap) (va : Nat) : Bool :=
-  match walk m p4 va, absLookup abs va with
+def walkMatchesAbs (m : PMem) (p4 : Word) (abs : List AbsMap) (disabled : List (List Nat)) (va : Nat) : Bool :=
+  match walk m p4 va, (if underDisabled disabled va then none else absLookup abs va) with
   | none, none => true
   | some x, some a =>
     x.base == a.frame && x.size == a.size && x.off == va - a.start &&
@@ -170,8 +178,9 @@ def walkSoft (m : PMem) (cr3 : Word) (va : Nat) : Option Xlat :=
 
 /-- C01: what `translate*` must report equals what the history dictates - including the pages mapped without
 `PRESENT`, which the API reports with their flags while the hardware (`walkMatchesAbs`) does not see them. -/
-def softMatchesAbs (m : PMem) (p4 : Word) (abs : List AbsMap) (va : Nat) : Bool :=
-  match walkSoft m p4 va, abs.find? (fun a => a.start ≤ va && va < a.start + a.size) with
+def softMatchesAbs (m : PMem) (p4 : Word) (abs : List AbsMap) (disabled : List (List Nat)) (va : Nat) : Bool :=
+  match walkSoft m p4 va, (if underDisabled disabled va then none
+                           else abs.find? (fun a => a.start ≤ va && va < a.start + a.size)) with
   | none, none => true
   | some x, some a =>
     x.base == a.frame && x.size == a.size && x.off == va - a.start &&
@@ -412,7 +421,15 @@ def handleMapper : SHandler MState := fun _cfg op a impl st =>
           !(imPre (w f) i == 0#64 && allocated.contains (tableAddr (w v)) && postSlots.contains (w f, i)) ||
             (w v &&& 3#64) == 3#64)
         -- C01
-        let c01a := probes.all (fun va => walkMatchesAbs imPost p4 abs' va && softMatchesAbs imPost p4 abs' va)
+        -- parent entries switched off / on again by this call
+        let disabled' : List (List Nat) :=
+          if isOk && (opcode == 5 || opcode == 6 || opcode == 7) then
+            let depth := opcode - 4          -- 1, 2, 3 indices
+            let pre := (parents ++ [leafIdx]).take depth
+            if w flags &&& 1#64 == 0#64 then (if st.disabled.contains pre then st.disabled else pre :: st.disabled)
+            else st.disabled.filter (· != pre)
+          else st.disabled
+        let c01a := probes.all (fun va => walkMatchesAbs imPost p4 abs' disabled' va && softMatchesAbs imPost p4 abs' disabled' va)
         let c01b := (probes.zip obs.probes).all (fun (va, o) => probeMatchesWalk imPost p4 va o)
         let c01 :=
           c01a && c01b &&
@@ -511,7 +528,7 @@ def handleMapper : SHandler MState := fun _cfg op a impl st =>
         let why := (if (st.mask &&& 1 != 0) && !c01 then s!"C01(a={c01a},b={c01b},reclinks={recLinks},nprobe={obs.probes.length}/{probes.length}) " else "") ++ (if (st.mask &&& 2 != 0) && !c02 then "C02 " else "") ++
           (if (st.mask &&& 4 != 0) && !c09 then "C09 " else "") ++ (if (st.mask &&& 8 != 0) && !c10 then "C10 " else "")
         some ({ model := model, oracleOk := ok, why := why },
-              { st with mm := mm', im := im', abs := abs', imPrev := st.im, lastOpcode := opcode,
+              { st with mm := mm', im := im', abs := abs', disabled := disabled', imPrev := st.im, lastOpcode := opcode,
                         lastPage := pageEff, lastFrame := frame, lastProbes := probes, lastPreTables := preTables })
     | _ => none
   | "mh_crash" =>
